@@ -98,6 +98,7 @@ class PeriodicRun:
             self.cb_log = []
             self.cms_log = []
             self.t0 = 0.0
+            self.twin = None
             if not case.get('late'):
                 self.make_sensor()
         self.expected = []          # [(time, [values])] all measurements so far
@@ -121,11 +122,22 @@ class PeriodicRun:
             self.cms = HCms(Maintainer(name='m'), name='cms')
             for _ in range(case['cms']):
                 self.cms.add_sensor(self.sensor)
+            if case.get('twin') and case['kind'] == 'periodic':
+                # a second sensor that happens to carry the same name, registered with the same Cms; the first
+                # one is registered once more afterwards (must change nothing)
+                self.twin = PeriodicSensor(case['interval'], [self.probes[0]], name='sensor')
+                self.cms.add_sensor(self.twin)
+                self.cms.add_sensor(self.sensor)
+                self.cms.add_sensor(self.twin)
 
     def make_cb(self, j):
         def cb(sensor, time, data):
             self.cb_log.append((j, sensor, time, list(data), data))
             lens = sorted({len(v) for v in sensor.data.values()})
+            cap = self.case['capacity']
+            if cap is not None and lens and lens[-1] > cap and not self.failed:
+                self.fail('capacity', f'inside on-sense callback {j} at {time!r} the series hold {lens[-1]} entries, '
+                          f'data capacity is {cap}')
             if len(lens) > 1 and not self.failed:
                 self.fail('alignment', f'inside on-sense callback {j} at {time!r} the series have lengths '
                           f'{[len(v) for v in sensor.data.values()]} (time series and probe series not aligned)')
@@ -164,7 +176,8 @@ class PeriodicRun:
         return act
 
     def dispatch(self, ev):
-        if action_name(ev.action) == '_periodic_sense' and not ev.cancelled:
+        if action_name(ev.action) == '_periodic_sense' and not ev.cancelled \
+                and instrument.action_owner(ev.action) is self.sensor:
             self.pending = (self.env.now, self.probe_values())
 
     def dispatched(self, ev):
@@ -199,8 +212,8 @@ class PeriodicRun:
                     return
             self.sh.count('callback_calls_checked', len(got))
             if self.cms is not None:
-                got = self.cms_log
-                self.cms_log = []
+                got = [g for g in self.cms_log if g[0] is self.sensor]
+                self.cms_log = [g for g in self.cms_log if g[0] is not self.sensor]
                 if len(got) != 1 or got[0][0] is not self.sensor or got[0][1] != t or got[0][2] != vals:
                     self.fail('cms', f'measurement at {t!r}: cms (sensor added {case["cms"]}x) received '
                               f'{[(g[1], g[2]) for g in got]}')
@@ -213,9 +226,18 @@ class PeriodicRun:
             cap = case['capacity']
             if cap is not None and self.count > cap:
                 self.sh.count('trimmed_measurements')
-        elif self.cb_log or self.cms_log:
+        elif self.cb_log or [g for g in self.cms_log if g[0] is self.sensor]:
             self.fail('callbacks', f'on-sense callbacks ran at {now!r} without a measurement')
             return
+        if self.twin is not None and action_name(ev.action) == '_periodic_sense' \
+                and instrument.action_owner(ev.action) is self.twin and not ev.cancelled:
+            got = [g for g in self.cms_log if g[0] is self.twin]
+            self.cms_log = [g for g in self.cms_log if g[0] is not self.twin]
+            if len(got) != 1:
+                self.fail('cms', f'the cms received the measurement of the second, same-named sensor at {now!r} '
+                          f'{len(got)} times')
+                return
+            self.sh.count('cms_deliveries_checked')
         self.check_data()
 
     def check_data(self):
@@ -305,7 +327,7 @@ class PartRun:
                 kw['data_capacity'] = case['capacity']
             self.sensor = OutputPartSensor(self.proc, self.probes, sensing_interval=case['n'], name='ps', **kw)
             self.cb_log = []
-            self.sensor.add_on_sense_callback(lambda s, t, d: self.cb_log.append((s, t, list(d))))
+            self.sensor.add_on_sense_callback(self.on_sense)
         self.expected = []
         self.k = 0
         self.skipped = 0
@@ -314,6 +336,13 @@ class PartRun:
         if not self.failed:
             self.failed = True
             self.sh.violation(name, msg, self.case, engine='part_sensor', witness={'now': self.env.now})
+
+    def on_sense(self, s, t, d):
+        self.cb_log.append((s, t, list(d)))
+        cap = self.case['capacity']
+        n = max(len(v) for v in s.data.values())
+        if cap is not None and n > cap:
+            self.fail('capacity', f'inside the on-sense callback at {t!r} the series hold {n} entries, capacity {cap}')
 
     def on_finish(self, proc, part):
         if instrument.PROBING:
@@ -401,7 +430,8 @@ def gen_periodic(rng, tie):
             'initial': [rng.choice(VALUES) for _ in range(nprobes)],
             'capacity': rng.choice([None, 1, 2, 3, 4, 6]), 'callbacks': rng.choice([0, 1, 2, 3]),
             'cms': rng.choice([0, 1, 2]), 'horizon': hs, 'script': script, 'tie': tie,
-            'tie_seed': rng.randrange(1 << 30), 'late': len(hs) == 2 and rng.random() < 0.5}
+            'tie_seed': rng.randrange(1 << 30), 'late': len(hs) == 2 and rng.random() < 0.5,
+            'twin': rng.random() < 0.3}
 
 
 def gen_part(rng, tie):
